@@ -14,7 +14,9 @@ CONSTANTS AccessSample, RouteSample, CredSample   \* 0 = everything, else size o
 (* ---------- host classes ---------- *)
 LocalHosts == {"lhName", "lhUpper", "lo4", "lo4b", "lo6", "unspec4", "unspec6", "unspec6b", "unspec6c", "mapped4", "lhAlias",
                \* IPv4-mapped IPv6 spellings of loopback / unspecified (dialled as the IPv4 address, i.e. the proxy host itself)
-               "mapped4hex", "mappedUnspec", "mappedUnspecHex", "mappedUnspecLong"}
+               "mapped4hex", "mappedUnspec", "mappedUnspecHex", "mappedUnspecLong",
+               \* a loopback literal with a zone (dialled as loopback) and the rooted form of the name
+               "lo6zone", "lhDot"}
 HostClasses == {"origin",      \* ordinary name, matches nothing
                 "denied",      \* matches a deny-domains include rule
                 "denyExcl",    \* matches an include rule and a '-' exclude rule
@@ -39,7 +41,9 @@ ViaLoop(v) == v \in {"ownOnly", "ownThenOther", "otherThenOwn", "ownSecondLine",
 
 (* ---------- upstream selection (C05) ---------- *)
 PacResults == {"empty", "DIRECT", "PROXY_A", "HTTP_A", "HTTPS_B", "SOCKS5_C", "SOCKS_C", "SOCKS4_C",
-               "FOO_A", "PROXY_noport", "PROXY_nohost", "A_then_B", "DIRECT_then_A", "blank_A_blank", "throws", "nonString"}
+               "FOO_A", "PROXY_noport", "PROXY_nohost", "A_then_B", "DIRECT_then_A", "blank_A_blank", "throws", "nonString",
+               \* entries whose host:port cannot be parsed: no host, a signed port, a port out of range
+               "PROXY_emptyhost", "PROXY_signedport", "PROXY_portrange"}
 Upstreams == {[t |-> "none", v |-> "-"]} \cup {[t |-> "static", v |-> x] : x \in {"HTTP_A", "HTTPS_B", "SOCKS5_C"}}
              \cup {[t |-> "pac", v |-> r] : r \in PacResults}
 
@@ -71,12 +75,13 @@ NextHop(cfg, h) ==
 \* The address being dialled is the hop's own address: the proxy's, or the target's when direct.
 \* Rule classes name what they match relative to that address; all redirect to peer R.
 CtClasses == {"none", "exact", "hostAnyPort", "anyHostPort", "anyAny", "otherHost", "otherPort",
-              "missThenExact", "exactThenAny", "anyThenExactElsewhere", "portOnlyRewrite"}
+              "missThenExact", "exactThenAny", "anyThenExactElsewhere", "portOnlyRewrite",
+              "exactOtherCase"}      \* the rule names the hop's host in another letter case (host names are case-insensitive)
 \* where the connection is opened: "self" = the hop's own address, "R" = redirect target,
 \* "R2" = second redirect target, "selfPortP" = same host, rewritten port
 DialTo(ct) ==
   CASE ct \in {"none", "otherHost", "otherPort"} -> "self"
-    [] ct \in {"exact", "hostAnyPort", "anyHostPort", "anyAny", "missThenExact", "exactThenAny"} -> "R"
+    [] ct \in {"exact", "hostAnyPort", "anyHostPort", "anyAny", "missThenExact", "exactThenAny", "exactOtherCase"} -> "R"
     [] ct = "anyThenExactElsewhere" -> "R"      \* first match wins; the later exact rule points to R2
     [] ct = "portOnlyRewrite" -> "selfPortP"
 
@@ -113,6 +118,7 @@ AccessCfgs == [tf : {"off", "in", "out"}, auth : BOOLEAN, lh : {"deny", "allow"}
 AccessReqs == [kind : AccessKinds, host : HostClasses \ {"direct", "directExcl"}, cred : CredClasses,
                via : {"none", "ownOnly"}, pos : Positions]
 AccessOK(c, r) ==
+  /\ (r.host \in {"lo6zone", "lhDot"} => r.kind \in {"GET", "GET10", "POST"})   \* written in a URL
   /\ (r.cred # "none" => c.auth)                 \* credentials only matter with auth on
   /\ (r.host \in {"denied", "denyExcl"} => c.deny)
   /\ (r.pos \in AfterRefused => (c.auth \/ c.deny \/ c.lh = "deny" \/ c.tf = "out"))
@@ -146,12 +152,13 @@ MatchProxy(T) == IF "proxy" \in T THEN "proxy" ELSE IF "glob" \in T THEN "glob" 
 CredUps == {"none", "staticUserinfo", "staticTable", "pacTable"}
 CredCfgs == [table : SUBSET (SiteEntries \cup {"proxy"}), up : CredUps]
 ClientShapes == {"none", "ownAuthz", "pauthOnce", "pauthTwice", "pauthMixedCase", "pauthNominated", "pauthAndAuthz"}
-CredReqs == [kind : {"GET", "CONNECT", "MITMGET"}, host : {"origin", "other"}, port : {"implicit", "8080"}, shape : ClientShapes]
-CredReqOK(r) == (r.kind = "CONNECT" => r.port = "8080") /\ (r.kind = "MITMGET" => r.port = "implicit")
+\* originUpper: the entry's host spelt in upper case by the client - the same target
+CredReqs == [kind : {"GET", "CONNECT", "MITMGET"}, host : {"origin", "other", "originUpper"}, port : {"implicit", "8080"}, shape : ClientShapes]
+CredReqOK(r) == (r.kind = "CONNECT" => r.port = "8080") /\ (r.kind = "MITMGET" => r.port = "implicit") /\ (r.host = "originUpper" => r.kind = "GET")
 HasOwnAuthz(sh) == sh \in {"ownAuthz", "pauthAndAuthz"}
 CredExpect(c, r) ==
   LET p80 == r.kind = "GET" /\ r.port = "implicit"        \* http default port; CONNECT uses 8080, MITM 443
-      site == Match(c.table \ {"proxy"}, r.host = "origin", p80)
+      site == Match(c.table \ {"proxy"}, r.host \in {"origin", "originUpper"}, p80)
   IN [ \* what the request that reaches the target (or the inner request of a tunnel) may carry as Authorization
        siteAuth  |-> IF HasOwnAuthz(r.shape) THEN "client" ELSE site,
        \* what the upstream proxy may be shown as Proxy-Authorization
